@@ -107,6 +107,7 @@ fn main() {
         "probe" => cli::probe(&args),
         "cderead" => cli::cderead(&args),
         "simpleread" => cli::simpleread(&args),
+        "roomsread" => cli::roomsread(&args),
         other => {
             eprintln!("unknown subcommand {}", other);
             std::process::exit(2);
